@@ -75,11 +75,11 @@ theorem C07_bytes_soup_stopped_is_closed (num : Soup.Pkt → Nat) (cfg : Cfg) (e
     (h : (brun soupProto num cfg evs).r.stopped = true) : (brun soupProto num cfg evs).s.closed = true :=
   stopped_closed soupFramer num cfg evs (soup_stable _) h
 
-/-- **FIX (reader with the dictionary dispatch): for every byte sequence whose computed frame lengths are non-negative** — a
-    negative BodyLength beyond that makes the frames depend on arrival timing (`Witness/C04Bytes.lean`); the reader still cannot
-    spin on such bytes (`C07_fix_reader_settles`, Props/C07Framing.lean, is for every byte string). -/
-theorem C07_bytes_fix_never_deaf (known : Bytes → Bool) (decode : Bytes → Except Err Unit) (hk : known [] = false)
-    (num : Bytes → Nat) (cfg : Cfg) (evs : List BEv) (hs : stable (fixProtoD known decode) fixSt (bytesOf evs) = true)
+/-- **FIX (reader with the dictionary dispatch, any dictionary, any field decoder): for EVERY byte sequence a peer can send** —
+    since the repair 658ee1f a negative BodyLength is a malformed frame like any other (before it the frames depended on
+    arrival timing, `Witness/C04Bytes.lean`). -/
+theorem C07_bytes_fix_never_deaf (known : Bytes → Bool) (decode : Bytes → Except Err Unit)
+    (num : Bytes → Nat) (cfg : Cfg) (evs : List BEv)
     (hconn : (brun (fixProtoD known decode) num cfg evs).s.status .R ≠ .absent) (n : Nat)
     (hn : (brun (fixProtoD known decode) num cfg evs).r.buf.length ≤ n) :
     (bfold (fixProtoD known decode) num cfg (brun (fixProtoD known decode) num cfg evs) (pollsN n)).s.closed = true ∨
@@ -90,9 +90,14 @@ theorem C07_bytes_fix_never_deaf (known : Bytes → Bool) (decode : Bytes → Ex
       (bfold (fixProtoD known decode) num cfg (brun (fixProtoD known decode) num cfg evs) (pollsN n)).s.rStopped = false ∧
       (bfold (fixProtoD known decode) num cfg (brun (fixProtoD known decode) num cfg evs) (pollsN n)).s.recvd =
         (carried (fixProtoD known decode) (bytesOf evs)).map num) := by
-  rcases never_deaf (fixFramer known decode hk) num cfg evs hs hconn n hn with h | ⟨h1, h2, _, h4, h5, h6, _, h8⟩
+  rcases never_deaf (fixFramer known decode) num cfg evs (fix_stable _ _) hconn n hn with h | ⟨h1, h2, _, h4, h5, h6, _, h8⟩
   · exact Or.inl h
   · exact Or.inr ⟨h1, h2, h4, h5, h6, h8⟩
+
+theorem C07_bytes_fix_stopped_is_closed (known : Bytes → Bool) (decode : Bytes → Except Err Unit) (num : Bytes → Nat)
+    (cfg : Cfg) (evs : List BEv) (h : (brun (fixProtoD known decode) num cfg evs).r.stopped = true) :
+    (brun (fixProtoD known decode) num cfg evs).s.closed = true :=
+  stopped_closed (fixFramer known decode) num cfg evs (fix_stable _ _) h
 
 /-! ### non-vacuity -/
 
@@ -119,5 +124,17 @@ example : (bfold soupProto numS cfg0 (brun soupProto numS cfg0 partialEvs) (poll
     (bfold soupProto numS cfg0 (brun soupProto numS cfg0 partialEvs) (pollsN 7)).r.buf = [0, 9, 83] ∧
     (bfold soupProto numS cfg0 (brun soupProto numS cfg0 partialEvs) (pollsN 7)).s.recvd = [101] ∧
     (bfold soupProto numS cfg0 (brun soupProto numS cfg0 partialEvs) (pollsN 7)).s.buf = [] := by decide
+
+/-- FIX, `8=FIX.4.4|9=-25|35=M|1=7|2=x|ZZ` (negative BodyLength): whether the reader polls between the two segments or after
+    both, the session closes with `ValueError` and nothing is handed on -/
+private def fx1 : Bytes := [56,61,70,73,88,46,52,46,52,1, 57,61,45,50,53,1, 51,53,61,77,1, 49,61,55,1, 50,61]
+private def fx2 : Bytes := [120,1, 90,90]
+private def fxP : Proto Bytes := fixProtoD (fun ty => ty == [48] || ty == [53] || ty == [77]) (fun _ => .ok ())
+example : (brun fxP (fun _ => 7) cfg0 [.ev .connect, .bytes fx1, .ev (.run .R), .bytes fx2, .ev (.run .R)]).s.closed = true ∧
+    (brun fxP (fun _ => 7) cfg0 [.ev .connect, .bytes fx1, .ev (.run .R), .bytes fx2, .ev (.run .R)]).r.failed = some .value ∧
+    (brun fxP (fun _ => 7) cfg0 [.ev .connect, .bytes fx1, .ev (.run .R), .bytes fx2, .ev (.run .R)]).r.out = [] := by decide
+example : (brun fxP (fun _ => 7) cfg0 [.ev .connect, .bytes fx1, .bytes fx2, .ev (.run .R)]).s.closed = true ∧
+    (brun fxP (fun _ => 7) cfg0 [.ev .connect, .bytes fx1, .bytes fx2, .ev (.run .R)]).r.failed = some .value ∧
+    (brun fxP (fun _ => 7) cfg0 [.ev .connect, .bytes fx1, .bytes fx2, .ev (.run .R)]).r.out = [] := by decide
 
 end NasdaqModel.Props.C07Bytes
